@@ -33,7 +33,7 @@ ASSUMPTIONS = [
     "forced refresh: |2KE/(dof kT) - 1| <= 1e-9 for T >= 1 K (the implementation adds 1e-15 eV to the temperature before scaling)",
     "normality: |z|>5 on mean/variance or KS p<1e-6 flags; re-measured once with 4x the draws",
 ]
-REQUIRED = {"reversibility_runs": 150, "reversibility_runs_with_used_integrator": 50, "order_runs_with_used_integrator": 20, "order_triples": 30, "refresh_batches": 4, "forced_refresh": 100, "hmc_trials": 300, "ke_checked_at_criteria": 300}
+REQUIRED = {"forced_refresh_with_constraints": 30, "reversibility_runs": 150, "reversibility_runs_with_used_integrator": 50, "order_runs_with_used_integrator": 20, "order_triples": 30, "refresh_batches": 4, "forced_refresh": 100, "hmc_trials": 300, "ke_checked_at_criteria": 300}
 SHARD_TIMEOUT = {"quick": 900, "thorough": 3000}
 
 
@@ -280,6 +280,14 @@ def run_refresh(spec, rec):
         nn = int(rng.integers(2, 30))
         a2 = Atoms("H" * nn, positions=rng.uniform(0, 10, (nn, 3)))
         a2.set_masses(rng.uniform(1, 200, nn))
+        ck = int(rng.integers(0, 6))
+        if ck >= 3 and nn >= 3:
+            # constraints remove degrees of freedom: the target is the kinetic temperature over the remaining ones
+            from ase.constraints import FixAtoms, FixCom, FixedPlane
+
+            cons = {3: [FixAtoms(indices=sorted(rng.choice(nn, size=int(rng.integers(1, nn - 1)), replace=False).tolist()))], 4: [FixCom()], 5: [FixedPlane(0, [0, 0, 1]), FixAtoms(indices=[nn - 1])]}[ck]
+            a2.set_constraint(cons)
+            rec.count("forced_refresh_with_constraints")
         T2 = float(10 ** rng.uniform(0, 4))
         c2 = make_ctx(a2, derive_seed("f", int(rng.integers(1, 2**40))), T2)
         maxwell_boltzmann_distribution(c2, forced=True)
@@ -287,7 +295,7 @@ def run_refresh(spec, rec):
         rec.evaluations += 1
         got = 2 * a2.get_kinetic_energy() / (a2.get_number_of_degrees_of_freedom() * KB * T2)
         if abs(got - 1) > 1e-9:
-            rec.viol("C14/forced-refresh-off-target", f"forced refresh gives kinetic temperature {got!r} x target", {"T": T2, "natoms": nn})
+            rec.viol("C14/forced-refresh-off-target", f"forced refresh gives kinetic temperature {got!r} x target", {"T": T2, "natoms": nn, "constraints": [type(c).__name__ for c in a2.constraints]})
 
 
 def run_hmc(spec, rec):
